@@ -91,6 +91,55 @@ theorem C07_mean_level_irrelevant (sf : SF K) (l l' : Option K) (ys : List K)
 
 /-! ## 2. Row order -/
 
+
+/-! ### scoring function given as a plain callable (no `functional` / `level` attribute) -/
+
+/-- with functional and level passed explicitly a plain callable is treated exactly like the score object -/
+theorem C07_plain_callable_explicit (sf : SF K) (fn : Option Functional) (l : K) (ys : List K)
+    (cols : List (List K)) (w : Option (List K)) :
+    decomposePlain sf (some fn) (some l) ys cols w = decompose sf (some fn) (some l) ys cols w := rfl
+
+/-- `functional=None` cannot be inferred from a plain callable: `ValueError`, no table -/
+theorem C07_plain_callable_needs_functional (sf : SF K) (lv : Option K) (ys : List K)
+    (cols : List (List K)) (w : Option (List K)) :
+    decomposePlain sf none lv ys cols w = .error Err.valueError := rfl
+
+/-- nor can the level, for the two functionals that need one -/
+theorem C07_plain_callable_needs_level (sf : SF K) (fn : Option Functional)
+    (h : fn = some .expectile ∨ fn = some .quantile) (ys : List K) (cols : List (List K)) (w : Option (List K)) :
+    decomposePlain sf (some fn) none ys cols w = .error Err.valueError := by
+  simp [decomposePlain, h]; rfl
+
+/-- for the mean and the median no level is needed -/
+theorem C07_plain_callable_default_level (sf : SF K) (fn : Option Functional)
+    (h : ¬ (fn = some .expectile ∨ fn = some .quantile)) (ys : List K) (cols : List (List K)) (w : Option (List K)) :
+    decomposePlain sf (some fn) none ys cols w = decompose sf (some fn) (some half) ys cols w := by
+  simp [decomposePlain, h]
+
+/-- **a callable wrapped around a score object, called with the object's own functional and level, gives the
+object's decomposition** (results and errors alike) -/
+theorem C07_plain_callable_agrees_with_object (sf : SF K) (ys : List K) (cols : List (List K))
+    (w : Option (List K)) :
+    decomposePlain sf (some (sfFunctional sf)) (sfLevel sf) ys cols w = decompose sf none none ys cols w := by
+  rw [C07_alias_explicit]
+  cases hl : sfLevel sf with
+  | some l => rfl
+  | none =>
+    have hf : sfFunctional sf = some .mean := by
+      unfold sfLevel at hl
+      unfold sfFunctional
+      cases he : sf.elem with
+      | some p => simp [he] at hl
+      | none =>
+        simp only [he] at hl ⊢
+        cases hk : sf.kind <;> simp [hk] at hl ⊢
+    rw [hf]
+    have : decomposePlain sf (some (some Functional.mean)) none ys cols w
+        = decompose sf (some (some .mean)) (some half) ys cols w := by
+      simp [decomposePlain]
+    rw [this]
+    exact C07_mean_level_irrelevant sf _ _ ys cols w
+
 /-- **The decomposition does not change when the rows of the data set are permuted** — every score
 object (library scores and `ElementaryScore`), every functional, with or without weights, and
 including the *domain repair* that is applied when `min y` is not an admissible prediction.
